@@ -300,4 +300,28 @@ example : PySlice.indices 5 none none (some (-2)) = some [4, 2, 0] := by decide
 example : PySlice.indices 5 (some (-2)) none none = some [3, 4] := by decide
 example : PySlice.indices 5 (some 1) (some 100) (some 0) = none := by decide
 
+/-! ### floating-point robustness of the index recovery -/
+
+/-- FLOATING-POINT ROBUSTNESS of the index recovery: whatever value `x̃` an inexact evaluation of `(c − origin)/step`
+produces, if it is within 1/2 of the exact integer index `k` then rounding recovers `k`.  (The exact-arithmetic theorems
+show the exact quotient IS `k`; IEEE double evaluation of `(o + k·d − o)/d` is within a few ulps of `k`, measured by the
+correspondence check; this lemma closes the gap between "within a few ulps" and "the same index".) -/
+theorem round_recovers_index (k : ℤ) (x : ℝ) (h : |x - (k : ℝ)| < 1 / 2) : round x = k := by
+  have hx : x = (k : ℝ) + (x - k) := by ring
+  rw [hx, round_intCast_add]
+  have h0 : round (x - (k : ℝ)) = 0 := by
+    rw [round_eq_zero_iff]
+    rw [abs_lt] at h
+    constructor <;> linarith [h.1, h.2]
+  rw [h0, add_zero]
+
+/-- the same for the `Coord ℝ` instance the model is evaluated with -/
+theorem rnd_recovers_index (k : ℤ) (x : ℝ) (h : |x - (k : ℝ)| < 1 / 2) : XMap.Coord.rnd x = k :=
+  round_recovers_index k x h
+
+example : round ((7 : ℝ) + 3 / 10) = 7 := by
+  have := round_recovers_index 7 ((7 : ℝ) + 3 / 10) (by norm_num [abs_lt])
+  simpa using this
+
+
 end Orix.C11
